@@ -1097,6 +1097,15 @@ package gorm
 //@   entry rowsErrSeen == 0
 //@   assert cursor-error-looked-at-first: rowsErrSeen == 1 [C15]
 
+//@ # ---------- C12: Replace with several targets clears the relation once ----------
+//@ # Replace(&a, &b, &c) on one record empties the in-memory relation before the first target only; clearing before
+//@ # every target would keep (and save) just the last one and unlink the others.
+//@ site replace-clears-before-the-first-target-only
+//@   match calldyn local:appendToRelations
+//@   in gorm.(*Association).saveAssociation
+//@   min-sites 2
+//@   assert cleared-once: defined(rv) ==> arg2 == (clear && idx == 0) [C12]
+
 //@ # ---------- C18/C04: a nested block is set up and undone on the caller's handle ----------
 //@ # SAVEPOINT and ROLLBACK TO SAVEPOINT of a nested Transaction carry the same context (and run on the same
 //@ # connection) as the statements of the block: they are issued through the receiver itself.
